@@ -32,6 +32,9 @@ Section Orc.
                 else if str_eqb d $"athena" then ATHENA_WRITE else [] in
       Some (sx_of_optbool (is_readonly_sql [] wr (sx_str (a 0%nat))))
     else if is_cmd cmd "sqlite3_classify" then Some (sx_of_verdict (sqlite3_classify (sx_strs (a 0%nat))))
+    else if is_cmd cmd "sqlite3_classify_sql" then Some (sx_of_optbool (classify_sql (sx_str (a 0%nat))))
+    else if is_cmd cmd "sqlite3_guards" then
+      let p := sx_str (a 0%nat) in Some (L [sx_of_bool (tcl_search p); sx_of_bool (shell_fn_search p); sx_of_bool (vacuum_search p)])
     else if is_cmd cmd "sqlite3_parts" then Some (sx_of_strs (sqlite3_parts (tl (sx_strs (a 0%nat))) false))
     else if is_cmd cmd "sql_lex" then Some (L (map sx_of_tok (sql_lex (sx_str (a 0%nat)))))
     else if is_cmd cmd "sql_spec" then
